@@ -2,6 +2,8 @@
 import GivaroModel.Prim.Word
 import GivaroModel.Prim.Gmp
 import GivaroModel.Spec.IntegerSpec
-import GivaroModel.Generated.IntegerOps
-import GivaroModel.Generated.IntegerSpecs
+import GivaroModel.Lemmas.GmpLemmas
+import GivaroModel.Lemmas.IntegerTactics
 import GivaroModel.Generated.IntegerThms
+import GivaroModel.Props.C01
+import GivaroModel.Props.C02
